@@ -86,6 +86,7 @@ class AoefSim:
         self.i = 0
         self.trace = []  # abstract trace (kind, role, fault, outcome)
         self.checked_loads = 0
+        self.refused = 0
         self.checked_docs = 0
         self.max_kinds = 0
         self.sim_span = [self.now, self.now]
@@ -246,6 +247,8 @@ class AoefSim:
             self.do_load(op)
         elif kind == "touch":
             self.do_touch(op)
+        elif kind == "edit":
+            self.do_edit(op)
         elif kind in ("copy", "rename"):
             self.do_copy(op)
         elif kind == "merge":
@@ -318,7 +321,11 @@ class AoefSim:
             src["spec"] = spec
         described = node.call("describe", src=src)
         if described["outcome"] != "value":
-            raise HarnessError(f"could not build the object: {described}")
+            self.record(op, f"construction-refused:{described.get('exc')}")
+            self.trace.append(("mem_save", "construction-refused"))
+            self.probes.hit("world:construction-refused")
+            self.refused += 1
+            return
         self.node_worlds[n].add(key)
         src.pop("spec", None)
         audio = op.get("audio")
@@ -430,6 +437,22 @@ class AoefSim:
         if reply["outcome"] == "ack":
             self.probes.hit("touch:live-objects-edited-in-place")
 
+    def do_edit(self, op):
+        """In-place edit of a collection a node loaded earlier."""
+        handle = self.handles.get(op["h"])
+        if handle is None or not handle["alive"]:
+            return self.record(op, "skipped")
+        node = self.node(handle["node"])
+        reply = node.call("edit_loaded", handle=op["h"], seed=op["seed"])
+        self.record(op, reply["outcome"], edits=reply.get("edits"),
+                    obj=sha(jdump(reply["canon"])) if "canon" in reply else None)
+        self.trace.append(("edit", len(reply.get("edits") or [])))
+        if reply["outcome"] == "ack":
+            # new content: what is saved next starts a new history
+            handle.update(canon=reply["canon"], cycles=0)
+            if reply.get("edits"):
+                self.probes.hit("edit:loaded-objects-edited-in-place")
+
     # ---------------------------------------------------------------- save
 
     def do_save(self, op):
@@ -455,9 +478,13 @@ class AoefSim:
             src["spec"] = spec
         described = node.call("describe", src=src)
         if described["outcome"] != "value":
-            raise HarnessError(
-                f"could not build the object to save: {described}"
-            )
+            # the data classes refused the generated world: it is not an
+            # input of save (C04 is the property about what may be refused)
+            self.record(op, f"construction-refused:{described.get('exc')}")
+            self.trace.append(("save", "construction-refused"))
+            self.probes.hit("world:construction-refused")
+            self.refused += 1
+            return
         if origin == "built":
             if key in self.node_worlds[n]:
                 self.probes.hit("save:same-live-objects-again")
@@ -521,7 +548,10 @@ class AoefSim:
         if ":" in op.get("path_as", ""):
             self.probes.hit("save:relative-to-changed-working-directory")
         if audio is not None:
-            self.probes.hit(f"save:audio-as-{op.get('audio_as', 'str')}")
+            how, _, pos = op.get("audio_as", "str").partition(":")
+            self.probes.hit(f"save:audio-as-{how}")
+            if pos:
+                self.probes.hit("save:audio-dir-positional")
         if after is not None and outcome == "ack" and len(after) >= 100_000:
             self.probes.hit("save:document>=100kB")
         if entry_before["status"] != "absent":
@@ -626,17 +656,21 @@ class AoefSim:
 
         if crashed:
             kind = fault["kind"]
-            # what the crash left at the path is observed, not assumed: a
-            # writer that goes through a temporary file leaves the old
-            # document in place
+            # The killed save was never acknowledged, so the properties say
+            # nothing about what it left behind; what is at the path is
+            # observed, not assumed. Unchanged content (a writer that goes
+            # through a temporary file, a crash before the first byte) keeps
+            # its old meaning; anything else -- partly written, completely
+            # written but by how many write() calls or renames we cannot
+            # know, or gone -- is a document nobody vouches for.
             if before == after:
                 self.files[p] = dict(entry_before, failed_before=True)
-            elif kind in ("crash_after_write", "crash_after_rename"):
-                self.files[p] = new_entry
-                self.probes.hit("save:crash-after-complete-write")
-                self.check_document(p, after, new_entry)
+            elif after is None:
+                self.files[p] = {"status": "absent", "failed_before": True}
             else:
                 self.files[p] = {"status": "torn", "failed_before": True}
+                if kind in ("crash_after_write", "crash_after_rename"):
+                    self.probes.hit("save:crash-after-complete-write")
             return
 
     def check_document(self, p, raw: bytes, entry):
@@ -646,8 +680,11 @@ class AoefSim:
         if not (want_c02 or want_c18):
             return
         try:
-            doc = json.loads(raw.decode("utf-8"))
+            # UTF-8, with or without a signature (a JSON reader may ignore a
+            # byte order mark; the statement is about the references)
+            doc = json.loads(raw.decode("utf-8-sig"))
         except (UnicodeDecodeError, ValueError) as err:
+            self.probes.hit("doc:not-parseable")
             self.violate("C02", "C02:not-json", str(err)[:200])
             return
         if want_c02:
@@ -936,6 +973,11 @@ class _Gen:
     def how(self):
         return self.rng.choice(["str", "path"])
 
+    def audio_how(self):
+        # the audio directory by keyword or in its documented position
+        return self.rng.choice(["str", "path", "str", "path",
+                                "str:pos", "path:pos"])
+
     def path_how(self):
         return self.rng.choice(["str", "path", "str", "path", "rel",
                                 "rel:deep", "rel:ünï dir"])
@@ -1030,7 +1072,7 @@ class _Gen:
             "node": n,
             "path_as": self.path_how(),
             "audio": audio,
-            "audio_as": self.how(),
+            "audio_as": self.audio_how(),
             "api": self.api(),
             "fault": self.wfault() if fault == "auto" else fault,
             "recheck_arg": self.rng.random() < 0.25,
@@ -1068,7 +1110,7 @@ class _Gen:
             "h": h,
             "path_as": self.path_how(),
             "audio": audio,
-            "audio_as": self.how(),
+            "audio_as": self.audio_how(),
             "api": self.api(),
             "type_arg": self.rng.random() < self.cfg["p_type_arg"],
             "fault": self.rfault() if fault == "auto" else fault,
@@ -1085,7 +1127,7 @@ class _Gen:
             "path": p,
             "path_as": self.how(),
             "audio": audio,
-            "audio_as": self.how(),
+            "audio_as": self.audio_how(),
             "api": self.api(),
             "fault": self.wfault() if fault == "auto" else fault,
         }
@@ -1154,6 +1196,21 @@ class _Gen:
         self.save(k, p=p2, n=n, root=self.rng.choice([root, self.root()]),
                   audio=audio, fault=None)
         self.load(p2, n=self.rng.choice([n, self.other_node(n)]), audio=audio)
+
+    def pat_edit_loaded(self):
+        """Load a collection, edit it in place, save it, load it again."""
+        k = self.ensure_world()
+        audio = self.audio_for_save(k)
+        s = self.save(k, audio=audio, fault=None)
+        n = self.node()
+        ld = self.load(s["path"], n=n, audio=audio, fault=None)
+        for _ in range(self.rng.randint(1, 2)):
+            self.emit({"op": "edit", "h": ld["h"],
+                       "seed": self.rng.randrange(1 << 30)})
+            p = self.rng.choice([s["path"], self.path()])
+            self.resave(ld["h"], audio=audio, p=p, fault=None)
+            self.load(p, n=self.rng.choice([n, self.other_node(n)]),
+                      audio=audio, fault=None)
 
     def pat_two_saves(self):
         a = self.ensure_world(0)
@@ -1330,6 +1387,7 @@ PATTERNS = {
         ("pat_overwrite", 2),
         ("pat_stale", 2),
         ("pat_touch", 2),
+        ("pat_edit_loaded", 2),
         ("pat_two_saves", 2),
         ("pat_fault_heal", 2),
         ("pat_crash_then_save", 2),
@@ -1347,6 +1405,7 @@ PATTERNS = {
         ("pat_two_saves", 3),
         ("pat_stale", 2),
         ("pat_touch", 2),
+        ("pat_edit_loaded", 2),
         ("pat_cycle", 3),
         ("pat_fault_heal", 1),
         ("pat_crash_then_save", 2),
@@ -1478,7 +1537,11 @@ SHAPE_PROBES = [
     "shape:user-only-as-note-author",
     "shape:user-only-as-recording-owner",
     "shape:geometry-none",
+    "shape:same-object-twice-in-a-reference-list",
 ] + [f"shape:geometry-{g}" for g in specs.GEOMETRY_KINDS]
+SEAM_PROBES = {
+    "C01": WRITE_FAULTS + READ_FAULTS + ["save:success-after-failed-save"],
+}
 CORE_PROBES = {
     "C01": SHAPE_PROBES + [
         "load:checked:other-node",
@@ -1487,6 +1550,7 @@ CORE_PROBES = {
         "save:overwrite-with-shorter",
         "save:success-after-failed-save",
         "touch:live-objects-edited-in-place",
+        "edit:loaded-objects-edited-in-place",
         "file:copy-by-another-tool",
         "file:rename-by-another-tool",
         "save:path-as-rel",
@@ -1506,6 +1570,7 @@ CORE_PROBES = {
     + [f"save:{t}" for t in COLLECTION_TYPE.values()],
     "C18": ["C18:relocated>=2-recordings", "C18:rejected-save-compared",
             "C18:stored-relative-checked", "C18:passthrough-checked",
-            "save:audio-as-str", "save:audio-as-path"]
+            "save:audio-as-str", "save:audio-as-path",
+            "save:audio-dir-positional"]
     + [f"C18:relocated:{t}" for t in COLLECTION_TYPE.values()],
 }
